@@ -17,9 +17,10 @@
    same edges and attackers). C10_every_history: the content of every coherent graph is loadable (content_gloadable), so for
    EVERY history of the attack-graph machine (nodes, links, attackers, compromise, analysis, pruning, removal, copies)
    saving the graph and loading the document with its model yields a coherent graph with the same nodes, children,
-   parents up to order, and attackers. Without the model the same holds with asset-less nodes for loadable contents
-   (C10_rebuild); the JSON / YAML text layer is trusted. *)
-From MT Require Import Prelude Graph GraphOps GraphInv Codec ModelIO GraphIO GraphLoad GraphLoadThm GraphSaveThm.
+   parents up to order, and attackers. C10_every_history_no_model: the same for loading WITHOUT the model — the nodes are
+   then named <id>:<name>, pairwise different because the ids are (a decimal numeral contains no colon), and the rebuilt
+   graph is the saved one with the assets dropped. The JSON / YAML text layer is trusted. *)
+From MT Require Import Prelude Graph GraphOps GraphInv Codec ModelIO GraphIO GraphLoad GraphLoadThm GraphSaveThm GraphSaveNoModel.
 
 Theorem C10_roundtrip_partial : forall fstr fparse name_of_id,
   (forall c n d, In n (gc_nodes c) -> gn_def n = Some d -> fparse (fstr d) = Some d) ->
@@ -72,6 +73,14 @@ Theorem C10_every_history : forall ops,
              Forall2 gn_equiv (gc_nodes (gcontent_of s')) (gc_nodes (gcontent_of s)) /\ gc_atts (gcontent_of s') = gc_atts (gcontent_of s).
 Proof. exact history_save_load. Qed.
 Print Assumptions C10_every_history.
+(* ... and load the document without the model: the same graph, the assets dropped *)
+Theorem C10_every_history_no_model : forall ops,
+  let s := final ops in
+  exists s', gload false (gcontent_of s) = Some s' /\ WF s' /\
+             Forall2 gn_equiv (gc_nodes (gcontent_of s')) (gc_nodes (strip_assets (gcontent_of s))) /\
+             gc_atts (gcontent_of s') = gc_atts (gcontent_of s).
+Proof. exact history_save_load_nomodel. Qed.
+Print Assumptions C10_every_history_no_model.
 
 Definition exG : gcontent := mkGC
   [ mkGN 0%Z "or" "access" (Some "h") JNull [2%Z] [] ["eve"; "eve"] None None false true (Some "T1") ["x"; "y"] [("k", JInt 1%Z)];
